@@ -537,7 +537,9 @@ class FnEval:
             or tn in ("str",) or tn.startswith("impl std::ops::Index")
         if tn in ("D", "W", "Int", "Self"):
             seqlike = False
-        if seqlike and (name in ("old", "new") or re.search(r"(_slices|_lookup|_indexes|_seq)$", name)):
+        concrete_seq = tn.startswith(("[", "std::vec::Vec<", "std::borrow::Cow<"))
+        if seqlike and (name in ("old", "new") or re.search(r"(_slices|_lookup|_indexes|_seq)$", name) or
+                        (concrete_seq and re.search(r"(_tokens|_items|_lines|_words|_chars|_values|_elements|_input|_side)$", name))):
             return Q(side, frame if not name.endswith("_indexes") else None, ITEM, False)
         return None
 
@@ -567,7 +569,10 @@ class FnEval:
             if self.given is not None and i < len(self.given) and self.given[i] is not None:
                 av = self.given[i]
             if nm == "self":
-                av = self.self_value()
+                # context mode: the receiver the caller actually passed (`self.old.anchor(i)` on a two-sided helper
+                # struct) is more precise than the global per-field join
+                if not (isinstance(av, tuple) and av and av[0] == "A" and av[1] == self.self_adt):
+                    av = self.self_value()
             elif is_hook_impl and fn.name in HOOK_SIG and 1 <= i <= len(HOOK_SIG[fn.name]) and p["ty"] == "usize":
                 k, s = HOOK_SIG[fn.name][i - 1]
                 av = S(k, s, own_frame if k == POS else None)
@@ -819,7 +824,15 @@ class FnEval:
     def ev_match(self, e):
         sc = self.ev(e["scrut"])
         out = None
+        known = sc[1] if (isinstance(sc, tuple) and len(sc) == 3 and sc[0] == "D" and str(sc[2]).startswith("Ctor") and
+                          "Const" in str(sc[2])) else None
         for arm in e["arms"]:
+            if known is not None:
+                # the scrutinee is a known unit variant (a tag constant passed by the caller in context mode): arms that
+                # name other variants only are dead in this context (conditional constant propagation)
+                alts = _pat_variants(arm["pat"])
+                if alts is not None and known not in alts:
+                    continue
             self.bind_pat(arm["pat"], sc, arm["pat"].get("line", e["line"]))
             if arm.get("guard"):
                 self.ev(arm["guard"])
@@ -959,6 +972,15 @@ class FnEval:
             if k == "lit":
                 return n.get("src", "?")
             if k == "field":
+                if not name_side(n["name"]) and not path_side(n["base"]):
+                    # a side-neutral field name (`self.n`): what it holds decides, as for a local
+                    rep, self.report = self.report, False
+                    try:
+                        av = self.ev(n)
+                    finally:
+                        self.report = rep
+                    if is_s(av) and av[2] in ("O", "N"):
+                        return "<sided>"
                 return go(n["base"]) + "." + ren(n["name"])
             if k == "binary":
                 return "(%s%s%s)" % (go(n["l"]), n["op"], go(n["r"]))
@@ -1130,6 +1152,11 @@ class FnEval:
             if kw == LEN:
                 if kg in (ZERO, CONST):
                     return True, "", False
+                if kg == POS and isinstance(got[4], tuple) and got[4] and got[4][0] == "fullend":
+                    sg = got[2]
+                    if sw in ("O", "N") and sg in ("O", "N") and sg != sw:
+                        return False, "length of the %s side where a %s-side length is required" % (_sn(sg), _sn(sw)), False
+                    return True, "", False
                 if kg == POS:
                     return False, "a position is used where a length is required", False
                 if kg != LEN:
@@ -1292,7 +1319,8 @@ class FnEval:
         if is_s(a) and is_s(b) and a[1] == ZERO and b[1] == LEN and b[4] is not None:
             qside, qframe = b[4]
             p = S(POS, qside, qframe)
-            return R(p, p)
+            # the end of a 0-based full range is also the length of the sequence (`0..n` then `r.end` used as n)
+            return R(p, ("S", POS, qside, qframe, ("fullend", qside, qframe)))
         if self.report and is_s(a) and is_s(b) and a[1] == BYTE and b[1] == BYTE and a[3] and b[3]:
             ok = not (a[3] == "pos" and b[3] == "len")
             self.ctx.ob("A6", ok, "%s: byte range `%s`: %s..%s" % (self.fn.path, e.get("src", ""), a[3], b[3]))
@@ -1419,12 +1447,18 @@ class FnEval:
                 return ANY
             if dk in ("Fn", "AssocFn"):
                 return self.call_def(path, None, args, e, f.get("gargs"))
-            self.ev(f)
-            for a in args:
-                self.ev(a)
-            return ANY
+            if res.get("k") != "local":
+                self.ev(f)
+                for a in args:
+                    self.ev(a)
+                return ANY
         # calling a closure value or fn pointer
         fv = self.ev(f)
+        if isinstance(fv, tuple) and fv and fv[0] == "D" and fv[2] in ("Fn", "AssocFn") and fv[1]:
+            # a function item that reached this call as a value (`tokenize: fn(&S) -> Vec<&S>` bound to
+            # DiffableStr::tokenize_lines in the caller): same as calling it by path
+            trait = fv[1].rsplit("::", 1)[0] if fv[2] == "AssocFn" and fv[1].rsplit("::", 1)[0] in self.ctx.prog.traits else None
+            return self.call_def(fv[1], None, args, e, trait=trait)
         vals = [self.ev(a) for a in args]
         if isinstance(fv, tuple) and fv and fv[0] == "F":
             return self.apply_closure(fv, vals)
@@ -1517,6 +1551,11 @@ class FnEval:
             seeds.append(sd)
             if sd is None and nm != "self" and _relevant_ty(p["ty"]):
                 unseeded_relevant = True
+            if nm == "self" and g.impl and i < len(allv) and isinstance(allv[i], tuple) and allv[i] and \
+                    allv[i][0] == "A" and allv[i][1] == _head(g.impl.get("self_ty")):
+                ev.self_adt = allv[i][1]
+                if allv[i] != ev.self_value():
+                    unseeded_relevant = True      # the receiver is known more precisely than the global field join
         # A3: arguments against the contract, with one caller frame for the callee's F0
         frames = set()
         for i, sd in enumerate(seeds):
@@ -1611,7 +1650,7 @@ class FnEval:
             ss = sides_of(a0)
             return S(LEN, list(ss)[0] if len(ss) == 1 else None)
         if path == "std::ops::FromResidual::from_residual":
-            return ANY
+            return O(None)      # the error/None path carries no coordinates (like Err(..) / None)
         # --- iterator protocol
         if path in ("std::iter::IntoIterator::into_iter",) or name in ("iter", "iter_mut", "into_iter", "drain"):
             if isinstance(a0, tuple) and a0 and a0[0] == "I":
@@ -1888,6 +1927,26 @@ class FnEval:
         self.conflict_check(conflicts, "map key/value `%s`" % _norm_src(str(recv.get("res", {}).get("name", "map"))), line,
                             sided=sided)
         self.store(recv, M(nk, nv), line)
+
+
+def _pat_variants(p):
+    """Set of unit-variant paths a pattern matches, or None if it can match anything else (binding, wildcard, ..)."""
+    if not isinstance(p, dict):
+        return None
+    k = p.get("k")
+    if k == "ref":
+        return _pat_variants(p["pat"])
+    if k == "expr" and (p.get("res") or {}).get("path"):
+        return {p["res"]["path"]}
+    if k == "or":
+        out = set()
+        for x in p["pats"]:
+            v = _pat_variants(x)
+            if v is None:
+                return None
+            out |= v
+        return out
+    return None
 
 
 def path_side(e, depth=0):
@@ -2178,7 +2237,7 @@ def _has_unseeded_relevant_param(ctx, fn):
         nm = p["pat"].get("name")
         if nm == "self":
             continue
-        if ev.seed_for(nm, p["ty"]) is None and (fn.spath, nm) not in PARAM_SIG and p["ty"].replace("&mut ", "").replace("&", "").strip() == "usize":
+        if ev.seed_for(nm, p["ty"]) is None and (fn.spath, nm) not in PARAM_SIG and _relevant_ty(p["ty"]):
             return True
     return False
 
